@@ -419,6 +419,17 @@ func (s *Sim) userActions() []Action {
 				}
 			}
 		}
+		if cfg.StrategyEdits && e.Spec.Strategy.Canary != nil && e.Spec.Strategy.Canary.Replicas != nil {
+			for _, v := range []string{"1", "2", "3"} {
+				v := v
+				if e.Spec.Strategy.Canary.Replicas.String() != v {
+					add("user.canary-replicas "+def.Key()+" "+v, func() {
+						e.Spec.Strategy.Canary.Replicas = intOrStr(v)
+						s.Store.ForceUpdate(e)
+					})
+				}
+			}
+		}
 		if cfg.EDSDelete {
 			add("user.delete-eds "+def.Key(), func() { s.Store.Remove(objKey{KEDS, def.NS, def.Name}) })
 		}
